@@ -90,8 +90,79 @@ fn plant_modes(g: &mut Gen, tree: &mut Vec<Node>, keep_clear: &[String]) -> Vec<
     planted
 }
 
+/// Configuration D: a fault-free start plus 1-3 mutator steps between `next()` calls.
+fn generate_dynamic(g: &mut Gen, stats: &mut GenStats) -> Scenario {
+    let tree = g.tree(LinkMode::None);
+    let model = Model::from_tree(&tree).unwrap();
+    let cwd = g.pick_dir(&model, 60);
+    let base = g.pick_dir(&model, 60);
+    let mut w = Walker {
+        source: Source::Path,
+        base: base.clone(),
+        spelling: g.spelling(),
+        link: Link::ReadFile,
+        depth: Depth::Unbounded,
+        order: g.order(false),
+        victims: vec![],
+        layers: vec![],
+        taps: g.rng.chance(1, 3),
+    };
+    if g.rng.chance(5, 10) {
+        let (e, r) = g.walk_glob(&model, &base, 1, true, &mut stats.rejections);
+        w.source = Source::Glob { expr: e, rooted: r };
+    }
+    // targets: anything that is not the working directory, the base, or above them
+    let protected = |p: &str| is_under(&cwd, p) || is_under(&base, p);
+    let targets: Vec<&Node> = tree.iter().filter(|n| !protected(&n.path)).collect();
+    let mut mutations = Vec::new();
+    let mut schedule = Vec::new();
+    let k = g.rng.range(1, 3);
+    for _ in 0..k {
+        if targets.is_empty() {
+            break;
+        }
+        let t = *g.rng.pick(&targets);
+        // no mutation is aimed through a path that an earlier mutation turned into a link (the
+        // later path would alias another part of the tree; a sampling restriction)
+        if mutations.iter().any(|m: &Mutation| matches!(m.op, MutOp::Retarget(_)) && is_below(&t.path, &m.path)) {
+            stats.restricted += 1;
+            continue;
+        }
+        let is_dir = t.kind == Kind::Dir;
+        let op = match g.rng.below(if is_dir { 6 } else { 3 }) {
+            0 => MutOp::Remove,
+            1 => MutOp::ToDir(g.rng.range(0, 2)),
+            2 => MutOp::Retarget(if g.rng.chance(1, 2) { "nowhere".into() } else { ".".into() }),
+            3 => MutOp::Chmod(if g.rng.chance(1, 2) { 0 } else { 0o444 }),
+            4 => MutOp::Add(g.rng.range(1, 3)),
+            _ => MutOp::ToFile,
+        };
+        let steps = if g.rng.chance(1, 2) { g.rng.range(0, 4) } else { g.rng.range(0, tree.len() + 2) };
+        for _ in 0..steps {
+            schedule.push(Step::W(0));
+        }
+        schedule.push(Step::M(mutations.len()));
+        mutations.push(Mutation {
+            path: t.path.clone(),
+            op,
+        });
+    }
+    Scenario {
+        prop: "C20".into(),
+        seed: 0,
+        tree,
+        cwd,
+        walkers: vec![w],
+        mutations,
+        schedule,
+    }
+}
+
 pub fn generate(rng: &mut Rng, tier: Tier, stats: &mut GenStats) -> Scenario {
     let mut g = Gen::new(rng, tier);
+    if g.rng.chance(3, 10) {
+        return generate_dynamic(&mut g, stats);
+    }
     let links = if g.rng.chance(1, 2) { LinkMode::All } else { LinkMode::None };
     let mut tree = g.tree(links);
     let model0 = Model::from_tree(&tree).unwrap();
@@ -178,10 +249,250 @@ fn healed(sc: &Scenario) -> Model {
     Model::from_tree(&tree).unwrap()
 }
 
-pub fn check(sc: &Scenario, env: &mut Env) -> Result<Outcome, HarnessError> {
+/// The tree specification after applying a mutation (the simulator's model of what it did).
+fn apply_mutation(tree: &[Node], m: &Mutation, serial: usize) -> Vec<Node> {
+    let mut t: Vec<Node> = tree.to_vec();
+    let drop_below = |t: &mut Vec<Node>, p: &str, keep_self: bool| {
+        t.retain(|n| !(is_below(&n.path, p) || (!keep_self && n.path == p)));
+    };
+    let mut exists = t.iter().any(|n| n.path == m.path);
+    // creating operations create the node if only its parent directory is (still) there
+    if !exists
+        && matches!(m.op, MutOp::ToFile | MutOp::ToDir(_) | MutOp::Retarget(_))
+        && (parent(&m.path).is_empty() || t.iter().any(|n| n.path == parent(&m.path) && n.kind == Kind::Dir))
+    {
+        t.push(Node { path: m.path.clone(), kind: Kind::File, mode: None });
+        exists = true;
+    }
+    match &m.op {
+        MutOp::Remove => drop_below(&mut t, &m.path, false),
+        MutOp::Chmod(mode) => {
+            if let Some(n) = t.iter_mut().find(|n| n.path == m.path) {
+                n.mode = Some(*mode);
+            }
+        },
+        MutOp::ToFile => {
+            drop_below(&mut t, &m.path, true);
+            if let Some(n) = t.iter_mut().find(|n| n.path == m.path) {
+                n.kind = Kind::File;
+                n.mode = None;
+            }
+        },
+        MutOp::ToDir(k) => {
+            drop_below(&mut t, &m.path, true);
+            if let Some(n) = t.iter_mut().find(|n| n.path == m.path) {
+                n.kind = Kind::Dir;
+                n.mode = None;
+            }
+            if exists {
+                for i in 0..*k {
+                    t.push(Node { path: join(&m.path, &format!("m{}_{}", serial, i)), kind: Kind::File, mode: None });
+                }
+            }
+        },
+        MutOp::Add(k) => {
+            if t.iter().any(|n| n.path == m.path && n.kind == Kind::Dir) {
+                for i in 0..*k {
+                    t.push(Node { path: join(&m.path, &format!("m{}_{}", serial, i)), kind: Kind::File, mode: None });
+                }
+            }
+        },
+        MutOp::Retarget(target) => {
+            drop_below(&mut t, &m.path, true);
+            if let Some(n) = t.iter_mut().find(|n| n.path == m.path) {
+                n.kind = Kind::Link { target: target.clone() };
+                n.mode = None;
+            }
+        },
+    }
+    t
+}
+
+/// Configuration D. Outside every tainted subtree the walk must be exact; inside, the relaxation
+/// is deliberately narrow: a yielded path must have existed before or after a mutation and match,
+/// an error must name a path inside a tainted subtree, nothing is produced twice, and the walk
+/// terminates within the budget.
+fn dynamic_check(sc: &Scenario, env: &mut Env) -> Result<Outcome, HarnessError> {
     let mut out = Outcome::default();
     let log = run_main(sc, env, &mut out)?;
     panic_clause("C20", sc, &log, &mut out);
+    let wi = 0;
+    let w = &sc.walkers[wi];
+    let view = View::of(&log, wi, &sc.cwd);
+    if view.panic.is_some() {
+        return Ok(out);
+    }
+    let glob = walk_glob(w, &env.root_text);
+    let space = Space::of(w, &env.root_text);
+    let matches = |p: &str| glob.as_ref().map_or(true, |g| g.is_match(space.rel(p).as_str()));
+    // model states: before, and after each applied mutation (in schedule order)
+    let applied: Vec<usize> = log.iter().filter_map(|e| match e { crate::exec::Ev::Mut { i, .. } => Some(*i), _ => None }).collect();
+    let mut states: Vec<Vec<Node>> = vec![sc.tree.clone()];
+    for mi in &applied {
+        let next = apply_mutation(states.last().unwrap(), &sc.mutations[*mi], *mi);
+        states.push(next);
+    }
+    let taints: Vec<&str> = applied.iter().map(|mi| sc.mutations[*mi].path.as_str()).collect();
+    let tainted = |p: &str| {
+        applied.iter().any(|mi| {
+            let m = &sc.mutations[*mi];
+            match m.op {
+                // adding entries taints only the new names
+                MutOp::Add(_) => is_below(p, &m.path) && name(p).starts_with(&format!("m{}_", mi)) && parent(p) == m.path,
+                _ => is_under(p, &m.path),
+            }
+        })
+    };
+    let pre = Model::from_tree(&states[0]).map_err(HarnessError)?;
+    let pre_visits = pre.traverse(&space.start, w.link, None);
+    // "existed before or after a mutation": the path denotes something in some state of the tree,
+    // resolved the way the kernel resolves it (a directory that was replaced by a link after it
+    // had been listed is still opened by path, which is the environment's race, not wax's).
+    let models: Vec<Model> = states.iter().filter_map(|st| Model::from_tree(st).ok()).collect();
+    let existed = |p: &str| models.iter().any(|m| m.resolve(p, false).is_ok());
+    // isolated: everything outside the tainted regions is exact
+    let mut expected: Vec<String> = Vec::new();
+    let mut base_may = false;
+    for v in &pre_visits {
+        if tainted(&v.path) {
+            continue;
+        }
+        let m = matches(&v.path);
+        if glob.is_some() && v.path == space.start && space.start_is_base {
+            base_may = m;
+            continue;
+        }
+        if m {
+            expected.push(v.path.clone());
+        }
+    }
+    expected.sort();
+    let mut outside: Vec<String> = Vec::new();
+    let mut inside: Vec<String> = Vec::new();
+    for y in &view.ys {
+        let wp = y.wp.clone().unwrap_or_else(|| format!("<outside:{}>", y.path));
+        if tainted(&wp) {
+            inside.push(wp);
+        }
+        else {
+            outside.push(wp);
+        }
+    }
+    outside.sort();
+    if base_may {
+        if let Some(i) = outside.iter().position(|p| *p == space.start) {
+            outside.remove(i);
+        }
+    }
+    // a walk root inside a tainted region (glob prefix) may be gone altogether
+    let root_tainted = view.ys.is_empty() && view.es.len() <= 1 && taints.iter().any(|t| pre_visits.iter().any(|v| is_under(&v.path, t)));
+    let (missing, extra) = diff_sorted(&outside, &expected);
+    if (!missing.is_empty() && !(root_tainted && outside.is_empty())) || !extra.is_empty() {
+        let mut items: Vec<String> = missing.iter().map(|m| format!("missing:{}", m)).collect();
+        items.extend(extra.iter().map(|m| format!("extra:{}", m)));
+        out.violate(
+            "C20",
+            "isolated",
+            wi,
+            format!(
+                "mutations {:?} (applied {:?}) while {:?} walked base {:?}: entries outside the mutated subtrees differ from the fault-free walk; missing {:?} extra {:?}",
+                sc.mutations, applied, w.source, w.base, missing, extra
+            ),
+            items,
+        );
+    }
+    // inside: only paths that existed at some time, matching, at most once
+    inside.sort();
+    for (i, p) in inside.iter().enumerate() {
+        if i > 0 && inside[i - 1] == *p {
+            out.violate("C20", "isolated", wi, format!("{:?} (inside a mutated subtree) yielded twice", p), vec![format!("dup:{}", p)]);
+        }
+        if !existed(p) || !matches(p) {
+            out.violate(
+                "C20",
+                "isolated",
+                wi,
+                format!("{:?} yielded from inside a mutated subtree although it never existed there or does not match", p),
+                vec![format!("extra:{}", p)],
+            );
+        }
+    }
+    // errors name a path inside a mutated subtree
+    for e in &view.es {
+        let wp = e.wp.clone().unwrap_or_default();
+        // a walk root that never existed may be reported (as in the static configuration)
+        let root_gone = view.ys.is_empty()
+            && view.es.len() == 1
+            && expected.is_empty()
+            && (e.kind == "NotFound" || e.kind == "NotADirectory")
+            && !pre.is_dir_node(&wp);
+        if root_gone {
+            out.fire("missing-root");
+            continue;
+        }
+        if !taints.iter().any(|t| is_under(&wp, t)) {
+            out.violate(
+                "C20",
+                "isolated",
+                wi,
+                format!("error item names {:?} (kind {}), outside every mutated subtree {:?}", e.path, e.kind, taints),
+                vec![format!("error:{}", wp)],
+            );
+        }
+        out.fire(&format!("in-flight:{}", e.kind));
+    }
+    if view.budget || !view.ended {
+        out.violate("C20", "isolated", wi, "the walk did not terminate within the budget after in-flight mutations".into(), vec!["no-termination".into()]);
+    }
+    // reach: where the mutation struck relative to the walker
+    for (k, mi) in applied.iter().enumerate() {
+        let m = &sc.mutations[*mi];
+        let seq = log.iter().position(|e| matches!(e, crate::exec::Ev::Mut { i, .. } if i == mi)).unwrap_or(0);
+        let target_seen_before = view.ys.iter().any(|y| y.seq < seq && y.wp.as_deref() == Some(m.path.as_str()));
+        let sibling_before = view.ys.iter().any(|y| y.seq < seq && y.wp.as_deref().map_or(false, |p| parent(p) == parent(&m.path) && p != m.path));
+        let inside_before = view.ys.iter().any(|y| y.seq < seq && y.wp.as_deref().map_or(false, |p| is_below(p, &m.path)));
+        let anything_after = view.ys.iter().any(|y| y.seq > seq) || view.es.iter().any(|e| e.seq > seq);
+        let pos = if !anything_after {
+            "after-the-walk-ended"
+        }
+        else if inside_before {
+            "walker-inside-target"
+        }
+        else if target_seen_before {
+            "target-just-yielded-or-passed"
+        }
+        else if sibling_before {
+            "parent-being-listed"
+        }
+        else {
+            "ahead-of-walker"
+        };
+        out.probe(format!("mutation:{}:{}", match m.op { MutOp::Remove => "remove", MutOp::Chmod(0) => "chmod-000", MutOp::Chmod(_) => "chmod-r--", MutOp::ToFile => "dir-to-file", MutOp::ToDir(_) => "to-dir", MutOp::Add(_) => "add", MutOp::Retarget(_) => "to-link" }, pos));
+        let _ = k;
+    }
+    let visited_taint = view.ys.iter().any(|y| y.wp.as_deref().map_or(false, |p| tainted(p))) || !view.es.is_empty();
+    if visited_taint || !missing.is_empty() {
+        out.nontrivial = true;
+    }
+    if !view.es.is_empty() {
+        out.fire("in-flight-fault-produced-error");
+    }
+    if view.ys.iter().any(|y| y.wp.as_deref().map_or(false, |p| tainted(p) && !pre_visits.iter().any(|v| v.path == p))) {
+        out.fire("in-flight-new-entry-seen");
+    }
+    walker_probes(w, &mut out);
+    out.probe("config:dynamic");
+    Ok(out)
+}
+
+pub fn check(sc: &Scenario, env: &mut Env) -> Result<Outcome, HarnessError> {
+    if !sc.mutations.is_empty() {
+        return dynamic_check(sc, env);
+    }
+    let mut out = Outcome::default();
+    let log = run_main(sc, env, &mut out)?;
+    panic_clause("C20", sc, &log, &mut out);
+    out.probe("config:static");
     let model = model_of(sc)?;
     let heal = healed(sc);
     for (wi, w) in sc.walkers.iter().enumerate() {
